@@ -417,6 +417,37 @@ def build_cases(tier: str):
                 except SyntaxError:
                     continue
                 cases.append((f"corpus:{l2}>{l1}", s2))
+    # beyond the small scope: the same escapes inside WIDE (40 operands) and DEEP (20-35 levels) whitelisted composites, at the first,
+    # a middle and the last position — every sub-expression is checked however many are pending
+    filler = ["t + u", "abs(t)", "u * 2", "t"]
+    ops40 = [filler[i % 4] for i in range(40)]
+    for c in CORPUS:
+        for pos in (0, 1, 20, 39):
+            ops = list(ops40)
+            ops[pos] = f"({c})"
+            wide = [("wide:Call.args", "max(" + ", ".join(ops) + ")"), ("wide:Tuple", "(" + ", ".join(ops) + ")"),
+                    ("wide:Call.keyword-tuple", "round(t, ndigits=(" + ", ".join(ops) + "))"), ("wide:BinOp-chain", " + ".join(ops))]
+            for lbl, src in wide:
+                try:
+                    ast.parse(src, mode="eval")
+                except SyntaxError:
+                    continue
+                cases.append((f"{lbl}@{pos}", src))
+        for depth in (16, 20, 35):
+            inner_if, inner_call, inner_un = "t", "t", f"({c})"
+            for d in range(depth):
+                inner_if = f"(u if t else {inner_if})"
+                inner_call = f"max(u, {inner_call})"
+                inner_un = f"-({inner_un})" if d % 2 else f"abs({inner_un})"
+            outer_if = f"(({c}) if t else {inner_if})"
+            deep = [("deep:IfExp-outermost", outer_if), ("deep:IfExp-innermost", inner_if.replace("t)", f"({c}))", 1)),
+                    ("deep:Call-outermost", f"max(({c}), {inner_call})"), ("deep:Unary-innermost", inner_un)]
+            for lbl, src in deep:
+                try:
+                    ast.parse(src, mode="eval")
+                except (SyntaxError, RecursionError, MemoryError):
+                    continue
+                cases.append((f"{lbl}/{depth}", src))
     # dedupe by source
     uniq: Dict[str, str] = {}
     for label, src in cases:
